@@ -126,3 +126,109 @@ def replay(args, model):
     bad = abs(got - true) > 1e-4 * max(1., true)
     return dict(confirmed=bool(bad), detail=f'returned {got:.6g}, largest eigenvalue of sum_i M_i x_i x_i^T = {true:.6g}',
                 inputs=dict(seed=0, n=n, p=p))
+
+
+def group_lipschitz_task(T, which, sparse):
+    """group-wise constants: QuadraticGroup.get_lipschitz(_sparse)[g] / LogisticGroup.initialize -> lipschitz[g] is
+    factor * ||X_[:, group g]||_2^2: the matrix handed to `norm` / `spectral_norm` for group g must have the Gram matrix of the columns
+    OF GROUP g (asymmetric layout grp_indices = [2, 0, 1], grp_ptr = [0, 2, 3]: groups (2, 0) and (1)), factor 1/n resp. 1/(4n)"""
+    import z3
+    from pv import sym, symrun
+    from pv.sproof import check_contract, zpre
+    from .c06 import Env, _sum
+    from .c06b import GP, GI, GROUPS
+    symrun.install()
+    import skglm.datafits.group as mod
+    K = getattr(mod, which)
+    n, p = 2, 3
+    e = Env(n, p)
+    R, L = sym.SymReal, sym.lift
+    Ss = [z3.Real(f'spectral_norm_group{g}') for g in range(len(GROUPS))]
+    rec = []
+
+    def stub_norm(A, ord=None, **kw):
+        rec.append(np.array(A, dtype=object))
+        return R(Ss[len(rec) - 1])
+
+    def stub_spectral(data, indptr, indices, n_samples, *a, **kw):
+        A = np.zeros((int(n_samples), len(indptr) - 1), dtype=object)
+        for j in range(len(indptr) - 1):
+            for idx in range(indptr[j], indptr[j + 1]):
+                A[indices[idx], j] = A[indices[idx], j] + data[idx]
+        rec.append(A)
+        return R(Ss[len(rec) - 1])
+    full = [[1] * p for _ in range(n)]
+    factor = z3.RealVal(1) / n if which == 'QuadraticGroup' else z3.RealVal(1) / (4 * n)
+
+    def run():
+        del rec[:]
+        D = K(GP, GI)
+        saved = (mod.norm, mod.spectral_norm)
+        try:
+            mod.norm, mod.spectral_norm = stub_norm, stub_spectral
+            if which == 'LogisticGroup':
+                D.initialize(e.symX(), e.sym(e.y))
+                out = D.lipschitz
+            elif sparse:
+                out = D.get_lipschitz_sparse(*e.csc(full), e.sym(e.y))
+            else:
+                out = D.get_lipschitz(e.symX(), e.sym(e.y))
+        finally:
+            mod.norm, mod.spectral_norm = saved
+        return out, list(rec)
+
+    def post(out, pth):
+        res, mats = out
+        cs = [('one-constant-per-group', [], z3.BoolVal(len(res) == len(GROUPS) and len(mats) == len(GROUPS)))]
+        if len(res) != len(GROUPS) or len(mats) != len(GROUPS):
+            return cs
+        for g, feats in enumerate(GROUPS):
+            A = mats[g]
+            d = len(feats)
+            if A.ndim != 2 or A.shape not in ((n, d), (d, n)):
+                cs.append((f'group{g}:matrix-is-the-n_samples-x-group-size-block', [], z3.BoolVal(False)))
+                continue
+            col = (lambda a: [L(A[i, a]) for i in range(n)]) if A.shape == (n, d) and not (n == d and False) else \
+                (lambda a: [L(A[a, i]) for i in range(n)])
+            for a in range(d):
+                for b in range(a, d):
+                    G = _sum(x * y_ for x, y_ in zip(col(a), col(b)))
+                    exp = _sum(e.X[i][feats[a]] * e.X[i][feats[b]] for i in range(n))
+                    cs.append((f'group{g}:result*(A^T.A)[{a}][{b}]==S^2*factor*(X_g^T.X_g)', [],
+                               L(res[g]) * G == Ss[g] * Ss[g] * factor * exp))
+        return cs
+    check_contract(T, f'{which}.{"initialize->lipschitz" if which == "LogisticGroup" else "get_lipschitz" + ("_sparse" if sparse else "")}',
+                   run, zpre([s >= 0 for s in Ss]), post, strength='B',
+                   replay=dict(fn='contracts.c09g:replay_group', args=dict(which=which, sparse=sparse)))
+
+
+add_task('C09', 'group:QuadraticGroup.get_lipschitz[dense]', group_lipschitz_task, strength='B', which='QuadraticGroup', sparse=False)
+add_task(['C09', 'C10'], 'group:QuadraticGroup.get_lipschitz[sparse]', group_lipschitz_task, strength='B', which='QuadraticGroup', sparse=True)
+add_task('C09', 'group:LogisticGroup.initialize->lipschitz', group_lipschitz_task, strength='B', which='LogisticGroup', sparse=False)
+
+
+def replay_group(args, model):
+    from scipy import sparse as sp
+    import skglm.datafits.group as mod
+    from skglm.utils.jit_compilation import compiled_clone
+    rng = np.random.RandomState(0)
+    n, p = 20, 4
+    X = np.asfortranarray(rng.randn(n, p) * np.array([0.5, 0.5, 10., 10.]))
+    y = np.sign(rng.randn(n))
+    gi, gp = np.array([2, 3, 0, 1], dtype=np.int32), np.array([0, 2, 4], dtype=np.int32)
+    D = compiled_clone(getattr(mod, args['which'])(gp, gi))
+    try:
+        if args['which'] == 'LogisticGroup':
+            D.initialize(X, y)
+            got, fac = D.lipschitz, 1 / (4 * n)
+        elif args['sparse']:
+            Xs = sp.csc_matrix(X)
+            got, fac = D.get_lipschitz_sparse(Xs.data, Xs.indptr, Xs.indices, y), 1 / n
+        else:
+            got, fac = D.get_lipschitz(X, y), 1 / n
+    except Exception as ex:      # noqa
+        return dict(confirmed=False, detail=f'could not call: {type(ex).__name__}: {str(ex)[:200]}', inputs={})
+    true = np.array([np.linalg.norm(X[:, gi[gp[g]:gp[g + 1]]], ord=2) ** 2 * fac for g in range(2)])
+    bad = bool(np.max(np.abs(got - true) / true) > 1e-3)
+    return dict(confirmed=bad, detail=f'returned {np.round(got, 4).tolist()}, block spectral norms give {np.round(true, 4).tolist()} '
+                '(groups (2,3) and (0,1), columns 2,3 scaled by 10)', inputs=dict(seed=0, n=n, p=p))
